@@ -281,6 +281,10 @@ func checkSimCommon(sc *Scenario, sim *Sim, res *RunResult) {
 	res.count("terminal_classifications", int64(sim.TermMate+sim.TermStale))
 	res.count("terminal_distinct_checked", int64(sim.TermChecked))
 	res.count("stalls_hit", int64(sim.StallsHit))
+	res.count("setup_stalls", int64(sim.SetupStalls))
+	if sim.SetupStalls > 0 {
+		res.fault("F3_setup_stall")
+	}
 	res.count("stale_timer_fires", int64(len(sim.StaleFires)))
 	if sim.StallsHit > 0 {
 		res.fault("F3_stall")
